@@ -48,7 +48,13 @@ RULE = ("merge cases: a random dataset (2..9 values; small integers, or gaussian
         "(plain and absolute), NeighbourInteraction, SWAP, composites - under the library's own names, incl. sets in which two "
         "observables share a name (SigmaX() with SigmaX(absolute=True), equal NeighbourInteractions / composites, SWAP([0]) with "
         "SWAP([1]), same-named mocks); from_samples cases: statistics_from_samples of each observable / of System(...) on batches of "
-        "0..9 rows; sample cases: ObservableBase.sample with every argument form. non-trivial iff at least two draws are merged and the "
+        "0..9 rows; sample cases: ObservableBase.sample with every argument form. Argument forms: every integer option (num_samples, "
+        "num_chains, burn_in, steps, k, NeighbourInteraction c, the lengths given to the merge routine) is handed over as a Python int / "
+        "np.int64 / np.int32 / np.intp / np.uint8 / 0-d numpy array / 0-d torch tensor and every boolean option (overwrite, absolute, "
+        "periodic_bcs, the constructors' gpu) as bool / int / np.bool_ / numpy comparison result / 0-d numpy array / 0-d torch tensor - "
+        "only the forms the unchanged code accepts for that option -, by keyword or as a positional prefix of the documented order, drawn "
+        "from two per-case streams seeded by the case's fseed / iseed (stored cases without them: plain Python values by keyword). "
+        "non-trivial iff at least two draws are merged and the "
         "captured values are not all equal (statistics), >= 2 rows with different values (from_samples); distinct by hash of the case")
 
 
@@ -100,6 +106,77 @@ def var_scale(V, scale):
     return max(1e-6, scale * math.sqrt(abs(float(V)))) if V is not None else 1.0
 
 
+# ---------------------------------------------------------------- argument forms (round 5)
+# Every boolean / integer option of every public call is handed over as one of the objects a caller may really pass (qc.FLAG_FORMS /
+# qc.INT_FORMS), by keyword or positionally, drawn from two per-case streams seeded by the case's "fseed" / "iseed" (a case without
+# these keys - corpus/, old replays - gets plain Python values by keyword, exactly as before).  Forms the CLEAN code rejects or
+# mishandles are left out per option (probe: notes/C13.md, "Argument-form sweep"):
+#  * a Python float with integral value: rejected everywhere (TypeError from range() / torch.Size) - never passed;
+#  * num_samples / num_chains of statistics as a 0-d torch tensor: accepted, but all arithmetic on the counts then happens in torch's
+#    default float32 and the dictionary holds float32 tensors (relative error ~1e-8) - left out;
+#  * num_samples / num_chains / merge lengths as np.uint8: accepted by the clean code (identical results while every count stays
+#    below 256), but UNSIGNED counts wrap under negation / subtraction (-np.uint8(7) == 249, np.uint8(0) - 1 == 255), so rewrites
+#    that are exact for every signed integer - ceil as -(-a // b) in benign/C13_2, max(len - 1, 0) - would raise false alarms:
+#    left out for every count (also num_samples of ObservableBase.sample), kept for the pure loop counts burn_in, steps, k;
+#  * NeighbourInteraction(c=np.uint8(..)): `-c` wraps to 256 - c, silently another observable - left out (outside C13);
+#  * _update_statistics lengths as 0-d torch tensors: float32 results as above - left out.
+COUNT_FORMS = tuple(f for f in qc.INT_FORMS if f not in ("t0d", "np.uint8"))   # num_samples, num_chains of statistics; merge lengths
+STEP_FORMS = tuple(qc.INT_FORMS)                                   # burn_in, steps of statistics; k of ObservableBase.sample
+SAMPLE_NS_FORMS = tuple(f for f in qc.INT_FORMS if f != "np.uint8")  # num_samples of ObservableBase.sample (0-d tensor: accepted, exact)
+NI_C_FORMS = tuple(f for f in qc.INT_FORMS if f != "np.uint8")    # NeighbourInteraction(c=...)
+
+
+def plain(x):
+    """the VALUE (Python int / bool) of an integer / boolean option object in any of the forms of qc.INT_FORMS / qc.FLAG_FORMS;
+    anything else is returned unchanged"""
+    if isinstance(x, (bool, np.bool_)):
+        return bool(x)
+    if isinstance(x, (int, np.integer)):
+        return int(x)
+    if isinstance(x, np.ndarray) and x.ndim == 0 and x.dtype.kind in "biu":
+        return bool(x) if x.dtype.kind == "b" else int(x)
+    if isinstance(x, torch.Tensor) and x.dim() == 0 and not (x.is_floating_point() or x.is_complex()):
+        return bool(x) if x.dtype == torch.bool else int(x)
+    return x
+
+
+class Forms:
+    """the two seeded streams of ONE case (qc.Flags(case["fseed"]), qc.Ints(case["iseed"])); they are consumed in the fixed order in
+    which the case's calls are made, so a replay hands over the very same objects.  Counts every form used."""
+
+    def __init__(self, ctx, case):
+        self.ctx = ctx
+        self.fl = qc.Flags(case.get("fseed"))
+        self.it = qc.Ints(case.get("iseed"))
+        # a 0-d numpy array and a 0-d torch tensor never meet in ONE case: arithmetic between the two (np.array(7) - torch.tensor(2))
+        # raises TypeError inside NumPy / Torch themselves, so a harmless rewrite computing with two options would raise a false alarm;
+        # which of the two forms a case may use is decided by the parity of its iseed
+        self.excluded = None if case.get("iseed") is None else ("t0d" if case["iseed"] % 2 else "np0d")
+
+    def flag(self, what, b, keyword_only=False):
+        """-> (object to pass for the truth value b, hand it over positionally?)"""
+        obj, d = self.fl(b)
+        pos = bool(d["pos"]) and not keyword_only
+        self.ctx.count(f"{what} given as {d['form']}:{'positional' if pos else 'keyword'}")
+        return obj, pos
+
+    def int(self, what, n, allowed=qc.INT_FORMS):
+        obj, d = self.it(n, tuple(f for f in allowed if f != self.excluded) or ("py",))
+        self.ctx.count(f"{what} given as {d['form']}")
+        return obj
+
+    def prefix(self, what, nmax, full=False):
+        """how many leading optional arguments are passed positionally (0 for cases without streams; all of them when `full`)"""
+        p = nmax if full else (0 if self.it.rng is None else self.it.rng.choice([0, 0] + list(range(1, nmax + 1))))
+        self.ctx.count(f"{what}: {p} positional arguments")
+        return p
+
+
+def call_with_prefix(fn, first, named, p):
+    """fn(first, <the first p of `named` positionally>, <the rest by keyword>); `named`: ordered list of (name, object)"""
+    return fn(first, *[v for _, v in named[:p]], **{k: v for k, v in named[p:]})
+
+
 class MockObs(ObservableBase):
     def __init__(self, w, off, name):
         self.w = torch.tensor(w, dtype=torch.double)
@@ -127,6 +204,7 @@ def merge_case(ctx, case):
     M, V, _ = exact_stats(xs)
     ctx.case(case, nontrivial=len(set(xs)) > 1 and N >= 3, sample={"part": "merge", "xs": xs})
     ctx.count("merge_dataset"); ctx.count(f"merge_N={N}"); ctx.count("merge_integral" if integral else "merge_float")
+    F = Forms(ctx, case)   # the two lengths in the forms in which `statistics` may hand them on (a caller's num_chains; their sums)
     for s in range(0, N + 1):
         a, b = xs[:s], xs[s:]
         sub = {**case, "split": s}
@@ -139,7 +217,9 @@ def merge_case(ctx, case):
             ctx.count("merge_split_right_empty")
         else:
             mb, vb = chunk_stats(b)
-        r = _update_statistics(ma, va, len(a), mb, vb, len(b))
+        la, lb = F.int("merge len_a", len(a), COUNT_FORMS), F.int("merge len_b", len(b), COUNT_FORMS)
+        r = _update_statistics(ma, va, la, mb, vb, lb)
+        r = (r[0], r[1], plain(r[2]))
         ok = (r[2] == N and stat_close(r[0], M, scale) and
               var_close(r[1], V, scale))
         ctx.oracle("merge == one-pass statistics of the concatenation", ok, sub,
@@ -148,7 +228,7 @@ def merge_case(ctx, case):
         ctx.count("merge_split")
         # a one-value chunk's reported variance must not matter
         if len(a) == 1 or len(b) == 1:
-            r2 = _update_statistics(ma, 123.25 if len(a) == 1 else va, len(a), mb, -7.5 if len(b) == 1 else vb, len(b))
+            r2 = _update_statistics(ma, 123.25 if len(a) == 1 else va, la, mb, -7.5 if len(b) == 1 else vb, lb)
             same = all(stat_close(x, y, scale * scale, 1e-12) for x, y in zip(r[:2], r2[:2])) and r[2] == r2[2]
             ctx.oracle("singleton variance is ignored", same, sub, detail={"nan": list(map(float, r[:2])), "junk": list(map(float, r2[:2]))},
                        sig="merge/singleton-ignored", theorem=THEOREMS["merge"])
@@ -165,9 +245,11 @@ def merge_case(ctx, case):
             continue
         chunks = [xs[i:i + c] for i in range(0, N, c)]
         rm, rv, rl = 0.0, 0.0, 0
+        cf = F.int("fold chunk length", c, COUNT_FORMS)
         for ch in chunks:
             mb, vb = chunk_stats(ch)
-            rm, rv, rl = _update_statistics(rm, rv, rl, mb, vb, c)
+            rm, rv, rl = _update_statistics(rm, rv, rl, mb, vb, cf)   # the running length stays whatever the routine returned
+        rl = plain(rl)
         sub = {**case, "chunk": c}
         ok = (rl == N and stat_close(rm, M, scale) and var_close(rv, V, scale))
         ctx.oracle("fold over equal chunks == one-pass", ok, sub, detail={"impl": [float(rm), float(rv), rl]}, sig="fold/oracle",
@@ -196,7 +278,9 @@ def formula_case(ctx, case):
         return  # nothing merged with nothing: never happens in a statistics run, the returned placeholder is not constrained by the property
     va = float("nan") if a[1] is None else float(a[1])
     vb = float("nan") if a[4] is None else float(a[4])
-    r = _update_statistics(float(a[0]), va, a[2], float(a[3]), vb, a[5])
+    F = Forms(ctx, case)
+    r = _update_statistics(float(a[0]), va, F.int("merge len_a", a[2], COUNT_FORMS), float(a[3]), vb, F.int("merge len_b", a[5], COUNT_FORMS))
+    r = (r[0], r[1], plain(r[2]))
     if ctx.driver is not None:
         m = ctx.driver.call("c13.update", avg_a=f2b(a[0]), var_a=f2b(va), len_a=a[2], avg_b=f2b(a[3]), var_b=f2b(vb), len_b=a[5])
         ms = max(1.0, abs(float(a[0])), abs(float(a[3])))
@@ -207,20 +291,32 @@ def formula_case(ctx, case):
 
 
 # ---------------------------------------------------------------- part B: statistics / System.statistics
-def make_obs(spec, n, idx):
-    """the observable of a spec, under the LIBRARY's own name (mocks: spec["name"], default O<idx>)"""
+def make_obs(spec, n, idx, F=None):
+    """the observable of a spec, under the LIBRARY's own name (mocks: spec["name"], default O<idx>); `F` (Forms): the constructors'
+    boolean / integer options (absolute, periodic_bcs, c) are handed over in the forms of the case's streams, keyword or positional"""
     t = spec["type"]
     mname = spec.get("name", f"O{idx}")
+
+    def pauli(cls, absolute):
+        if F is None:
+            return cls(absolute=absolute)
+        a, pos = F.flag("absolute", absolute)
+        return cls(a) if pos else cls(absolute=a)
     if t == "mock":
         o = MockObs(spec["w"], spec["off"], mname)
     elif t == "SigmaZ":
-        o = SigmaZ(absolute=spec.get("absolute", False))
+        o = pauli(SigmaZ, spec.get("absolute", False))
     elif t == "SigmaX":
-        o = SigmaX(absolute=spec.get("absolute", False))
+        o = pauli(SigmaX, spec.get("absolute", False))
     elif t == "SigmaY":
-        o = SigmaY(absolute=spec.get("absolute", False))
+        o = pauli(SigmaY, spec.get("absolute", False))
     elif t == "NI":
-        o = NeighbourInteraction(periodic_bcs=spec["periodic"], c=spec.get("c", 1))
+        if F is None:
+            o = NeighbourInteraction(periodic_bcs=spec["periodic"], c=spec.get("c", 1))
+        else:
+            pb, pos = F.flag("periodic_bcs", spec["periodic"])
+            c = F.int("NeighbourInteraction c", spec.get("c", 1), NI_C_FORMS)
+            o = NeighbourInteraction(pb, c) if pos else NeighbourInteraction(periodic_bcs=pb, c=c)
     elif t == "SWAP":
         o = SWAP(spec["A"])
     elif t == "composite":
@@ -230,18 +326,20 @@ def make_obs(spec, n, idx):
         o = 0.5 * (SigmaX() + MockObs(spec["w"], spec["off"], mname + "m")) - np.float64(2.0)
     elif t == "composite3":
         # same NAME "(SigmaX + 1)" whether or not the leaf takes absolute values
-        o = SigmaX(absolute=spec.get("absolute", False)) + 1
+        o = pauli(SigmaX, spec.get("absolute", False)) + 1
     else:
         raise ValueError(t)
     return o
 
 
-def make_state(s):
+def make_state(s, F=None):
+    """`F` (Forms): the constructors' `gpu` option is a falsy object of one of qc.FLAG_FORMS (first draw of the case's flag stream)"""
+    gpu = False if F is None else F.flag("gpu", False, keyword_only=True)[0]
     if s["kind"] == "pos":
-        return qc.make_positive(s["n"], s["h"], s["am"])
+        return qc.make_positive(s["n"], s["h"], s["am"], gpu=gpu)
     if s["kind"] == "dens":
-        return qc.make_density(s["n"], s["h"], s["a"], s["am"], s["ph"])
-    return qc.make_complex(s["n"], s["h"], s["am"], s["ph"])
+        return qc.make_density(s["n"], s["h"], s["a"], s["am"], s["ph"], gpu=gpu)
+    return qc.make_complex(s["n"], s["h"], s["am"], s["ph"], gpu=gpu)
 
 
 def first_occ(names):
@@ -274,7 +372,9 @@ class Recorder:
         return self.tokens[id(t)]
 
     def __call__(self, k, num_samples=1, initial_state=None, overwrite=False):
-        rec = {"k": k, "num_samples": num_samples, "init": self.tok(initial_state), "overwrite": overwrite,
+        # recorded by VALUE (a numpy integer / 0-d array / 0-d tensor handed on by the library counts as the int it denotes); the
+        # objects themselves are passed on unchanged
+        rec = {"k": plain(k), "num_samples": plain(num_samples), "init": self.tok(initial_state), "overwrite": plain(overwrite),
                "init_copy": None if initial_state is None else initial_state.clone()}
         out = self.orig(k=k, num_samples=num_samples, initial_state=initial_state, overwrite=overwrite)
         rec["ret"] = self.tok(out)
@@ -325,10 +425,25 @@ def make_user(rows, n, form):
     raise ValueError(form)
 
 
+STAT_ARGS = ("num_samples", "num_chains", "burn_in", "steps", "initial_state", "overwrite")   # the documented order after nn_state
+
+
+def stat_call(F, what, target, st, ns, nc, burn, steps, init, ow):
+    """ONE call of `target.statistics` (an observable or a System): the four integer options and `overwrite` are drawn from the case's
+    streams (forms the clean code accepts), and a prefix of the documented argument order is passed positionally"""
+    ow_obj, ow_pos = F.flag(f"{what} overwrite", ow)
+    vals = {"num_samples": F.int(f"{what} num_samples", ns, COUNT_FORMS), "num_chains": F.int(f"{what} num_chains", nc, COUNT_FORMS),
+            "burn_in": F.int(f"{what} burn_in", burn, STEP_FORMS), "steps": F.int(f"{what} steps", steps, STEP_FORMS),
+            "initial_state": init, "overwrite": ow_obj}
+    p = F.prefix(what, len(STAT_ARGS), full=ow_pos)
+    return call_with_prefix(target.statistics, st, [(k, vals[k]) for k in STAT_ARGS], p)
+
+
 def stats_case(ctx, case):
     n = case["state"]["n"]
-    st = make_state(case["state"])
-    obs = [make_obs(s, n, i) for i, s in enumerate(case["obs"])]
+    F = Forms(ctx, case)
+    st = make_state(case["state"], F)
+    obs = [make_obs(s, n, i, F) for i, s in enumerate(case["obs"])]
     names = [o.name for o in obs]          # the library's own names: a System keys its observables by them
     keys = first_occ(names)
     last = {nm: max(i for i, x in enumerate(names) if x == nm) for nm in keys}   # index of the last observable given with that name
@@ -347,7 +462,6 @@ def stats_case(ctx, case):
             return None, None
         return make_user(rows_, n, form)
     ns, nc, burn, steps, ow, system = case["ns"], case["nc"], case["burn_in"], case["steps"], case["overwrite"], case["system"]
-    kwargs = dict(num_samples=ns, num_chains=nc, burn_in=burn, steps=steps, overwrite=ow)
     sysobj = System(*obs) if system else None
     if case.get("before"):
         # an EARLIER run with another configuration on the very same observable / System / state objects (results discarded here:
@@ -356,20 +470,16 @@ def stats_case(ctx, case):
         ctx.count("second_run_on_same_objects")
         torch.manual_seed(b["torch_seed"])
         ub = None if b["rows"] is None else torch.tensor(b["rows"], dtype=torch.double).reshape(len(b["rows"]), n)
-        kb = dict(num_samples=b["ns"], num_chains=b["nc"], burn_in=b["burn_in"], steps=b["steps"], initial_state=ub, overwrite=b["overwrite"])
         try:
-            if system:
-                sysobj.statistics(st, **kb)
-            else:
-                for o in obs:
-                    o.statistics(st, **kb)
+            for tgt in ([sysobj] if system else obs):
+                stat_call(F, "earlier statistics", tgt, st, b["ns"], b["nc"], b["burn_in"], b["steps"], ub, b["overwrite"])
         except ZeroDivisionError:
             pass
     runs = []  # (result dicts per observable, error, calls, observables covered, the caller's tensor after the run)
     if system:
         torch.manual_seed(case["torch_seed"])
         user, backing = new_user()
-        r, err, calls = record_run(st, user, lambda u: sysobj.statistics(st, initial_state=u, **kwargs))
+        r, err, calls = record_run(st, user, lambda u: stat_call(F, "System.statistics", sysobj, st, ns, nc, burn, steps, u, ow))
         sys_keys = None if r is None else list(r.keys())
         if r is not None:
             ctx.oracle("System.statistics returns one entry per distinct name", sorted(r.keys()) == sorted(keys), case,
@@ -380,7 +490,7 @@ def stats_case(ctx, case):
         for i, o in enumerate(obs):
             torch.manual_seed(case["torch_seed"] + i)
             user, backing = new_user()
-            r, err, calls = record_run(st, user, lambda u: o.statistics(st, initial_state=u, **kwargs))
+            r, err, calls = record_run(st, user, lambda u: stat_call(F, "statistics", o, st, ns, nc, burn, steps, u, ow))
             runs.append((None if r is None else [r], err, calls, [i], user, backing))
 
     c_exp = (len(case["init"]) if case["init"] is not None else (min(nc, ns) if nc != 0 else ns))
@@ -449,7 +559,7 @@ def stats_case(ctx, case):
                 M, V, N = exact_stats(allv)
                 sc = max(1.0, max(abs(x) for x in allv))
                 d = r[j]
-                ok = d is not None and (d["num_samples"] == N == T * c_exp and N >= ns and stat_close(d["mean"], M, sc, 1e-9)
+                ok = d is not None and (plain(d["num_samples"]) == N == T * c_exp and N >= ns and stat_close(d["mean"], M, sc, 1e-9)
                                         and var_close(d["variance"], V, sc) and se_close(d["std_error"], V, N, sc))
                 # "each observable gets the result it would get alone on the same chain states": when it does not, and a LATER observable
                 # of the set carries the same name with different per-sample values, this is the known merge of same-named observables
@@ -505,7 +615,7 @@ def stats_case(ctx, case):
                                   sig=f"{sig0}/{key}")
                         ctx.point(f"{key}.std_error", lvl, [float(d["std_error"])], unbits([mm["std_error"]]), case, scale=sc, rtol=1e-5,
                                   atol=1e-7, theorem=th, sig=f"{sig0}/{key}")
-                        ctx.point(f"{key}.num_samples", lvl, d["num_samples"], mm["n"], case, exact=True, theorem=th, sig=f"{sig0}/{key}")
+                        ctx.point(f"{key}.num_samples", lvl, plain(d["num_samples"]), mm["n"], case, exact=True, theorem=th, sig=f"{sig0}/{key}")
     ctx.case(desc | {"seed": case["torch_seed"]}, nontrivial=nontriv,
              sample={"part": "statistics", **{k: desc[k] for k in ("ns", "nc", "burn_in", "steps", "overwrite", "system", "init_rows")},
                      "obs": [s["type"] for s in case["obs"]]})
@@ -517,8 +627,9 @@ def from_samples_case(ctx, case):
     0..9 rows: one-pass statistics of the observable's own per-sample values (exact rational oracle + model `fromSamples` /
     `systemFromSamples`), ZeroDivisionError for the empty batch, nan variance / std_error for one row."""
     n = case["state"]["n"]
-    st = make_state(case["state"])
-    obs = [make_obs(sp, n, i) for i, sp in enumerate(case["obs"])]
+    F = Forms(ctx, case)    # gpu flag of the state, constructor options of the observables
+    st = make_state(case["state"], F)
+    obs = [make_obs(sp, n, i, F) for i, sp in enumerate(case["obs"])]
     names = [o.name for o in obs]
     keys = first_occ(names)
     last = {nm: max(i for i, x in enumerate(names) if x == nm) for nm in keys}
@@ -627,8 +738,9 @@ def sample_case(ctx, case):
     """`ObservableBase.sample(nn_state, k, num_samples, initial_state, overwrite)`: exactly ONE sampler call that receives the caller's
     arguments unchanged (the caller's tensor itself), and the returned values are the observable on the tensor that call returned."""
     n = case["state"]["n"]
-    st = make_state(case["state"])
-    o = make_obs(case["obs"][0], n, 0)
+    F = Forms(ctx, case)
+    st = make_state(case["state"], F)
+    o = make_obs(case["obs"][0], n, 0, F)
     form = case.get("init_form", "f64")
     user, backing, user_before = None, None, None
     if case["init"] is not None:
@@ -643,12 +755,21 @@ def sample_case(ctx, case):
                      "init_rows": None if case["init"] is None else len(case["init"]), "obs": case["obs"][0]["type"]})
     torch.manual_seed(case["torch_seed"])
 
+    # k, num_samples, overwrite in the forms of the case's streams (all of qc.INT_FORMS / qc.FLAG_FORMS are accepted by the clean code;
+    # np.uint8 is not used for the count num_samples);
+    # "keyword" cases with streams pass a prefix of (k, num_samples, initial_state, overwrite) positionally
+    k_obj = F.int("sample k", k, STEP_FORMS)
+    ns_obj = F.int("sample num_samples", ns, SAMPLE_NS_FORMS)
+    ow_obj, ow_pos = F.flag("sample overwrite", ow)
+    pfx = F.prefix("sample (keyword form)", 4, full=ow_pos) if call_form == "keyword" else 0
+
     def run(u):
         if call_form == "default":          # num_samples, initial_state, overwrite left at their defaults (1, None, False)
-            return o.sample(st, k)
+            return o.sample(st, k_obj)
         if call_form == "positional":
-            return o.sample(st, k, ns, u, ow)
-        return o.sample(st, k=k, num_samples=ns, initial_state=u, overwrite=ow)
+            return o.sample(st, k_obj, ns_obj, u, ow_obj)
+        return call_with_prefix(o.sample, st,
+                                [("k", k_obj), ("num_samples", ns_obj), ("initial_state", u), ("overwrite", ow_obj)], pfx)
     if call_form == "default":
         ns, ow, user, user_before = 1, False, None, None
     r, err, calls = record_run(st, user, run)
@@ -730,6 +851,11 @@ def gen_state(rng, n=None):
     return s
 
 
+def form_seeds(rng):
+    """seeds of the case's flag / integer form streams (qc.Flags / qc.Ints); only the seeds are stored in the case"""
+    return {"fseed": rng.randrange(2 ** 31), "iseed": rng.randrange(2 ** 31)}
+
+
 def gen_stats_case(rng, ns, nc, system, user_rows=None, overwrite=False, init_form=None, same_named=False):
     st = gen_state(rng)
     n = st["n"]
@@ -739,6 +865,10 @@ def gen_stats_case(rng, ns, nc, system, user_rows=None, overwrite=False, init_fo
             "overwrite": overwrite, "system": system, "torch_seed": rng.randrange(1 << 30)}
     if init_form is not None:
         case["init_form"] = init_form
+    if ns > 0 and user_rows != 0:
+        # the malformed stream (nothing requested / no chains) keeps plain Python values: there the clean code's outcome depends on the
+        # form (0 / 0 is ZeroDivisionError for Python ints, nan + ValueError for numpy integers) and the property says nothing about it
+        case.update(form_seeds(rng))
     return case
 
 
@@ -746,7 +876,7 @@ def gen_from_samples_case(rng, B, system, same_named=False):
     st = gen_state(rng)
     n = st["n"]
     return {"part": "from_samples", "state": st, "obs": gen_same_named(rng, n) if same_named else gen_obs_specs(rng, n),
-            "rows": [[rng.randrange(2) for _ in range(n)] for _ in range(B)], "system": system}
+            "rows": [[rng.randrange(2) for _ in range(n)] for _ in range(B)], "system": system, **form_seeds(rng)}
 
 
 def gen_sample_case(rng):
@@ -757,7 +887,8 @@ def gen_sample_case(rng):
     return {"part": "sample", "state": st, "obs": gen_obs_specs(rng, n, 1), "k": rng.randrange(0, 5), "ns": rng.randrange(1, 6),
             "init": None if ur is None else [[rng.randrange(2) for _ in range(n)] for _ in range(ur)], "overwrite": ow,
             "init_form": rng.choice(["f64", "f64", "f32", "cols", "rows", "T", "i64"]),
-            "call_form": rng.choice(["keyword", "keyword", "keyword", "positional", "positional", "default"]), "torch_seed": rng.randrange(1 << 30)}
+            "call_form": rng.choice(["keyword", "keyword", "keyword", "positional", "positional", "default"]), "torch_seed": rng.randrange(1 << 30),
+            **form_seeds(rng)}
 
 
 SPECIAL_PAIRS = [(1, 0), (1, 1), (1, 5), (2, 1), (5, 1), (7, 3), (9, 4), (6, 0), (4, 10), (6, 3), (9, 9), (8, 5), (3, 2)]
@@ -768,14 +899,14 @@ def gen_cases(ctx, thorough):
     # part A
     for _ in range(60 if thorough else 15):
         N = rng.randrange(2, 10)
-        yield {"part": "merge", "xs": [float(rng.randrange(-6, 7)) for _ in range(N)]}
-        yield {"part": "merge", "xs": [rng.gauss(0, 3) for _ in range(N)]}
+        yield {"part": "merge", "xs": [float(rng.randrange(-6, 7)) for _ in range(N)], "iseed": rng.randrange(2 ** 31)}
+        yield {"part": "merge", "xs": [rng.gauss(0, 3) for _ in range(N)], "iseed": rng.randrange(2 ** 31)}
     yield {"part": "merge", "xs": [2.0, 2.0, 2.0, 2.0]}
-    yield {"part": "merge", "xs": [1e6 + 1, 1e6 + 2, 1e6 + 4, 1e6 - 3, 1e6, 1e6 + 9]}
+    yield {"part": "merge", "xs": [1e6 + 1, 1e6 + 2, 1e6 + 4, 1e6 - 3, 1e6, 1e6 + 9], "iseed": rng.randrange(2 ** 31)}
     # |mean| >> spread: the variance must come out to relative accuracy, not to accuracy relative to mean^2
     for off in (1e8, -3e7, 1e9, 2.0 ** 40):
         N = rng.randrange(3, 10)
-        yield {"part": "merge", "xs": [off + float(rng.randrange(-6, 7)) for _ in range(N)]}
+        yield {"part": "merge", "xs": [off + float(rng.randrange(-6, 7)) for _ in range(N)], "iseed": rng.randrange(2 ** 31)}
         yield {"part": "merge", "xs": [off + round(rng.gauss(0, 2), 2) for _ in range(N)]}
     yield {"part": "formula", "args": [3, None, 0, 4, None, 1]}
     for _ in range(300 if thorough else 40):
@@ -784,7 +915,7 @@ def gen_cases(ctx, thorough):
         # undefined (nan) variance [torch.var_mean], otherwise any mean and any variance >= 0
         opa = [0, 0, 0] if la == 0 else [rng.randrange(-9, 10), None if la == 1 else rng.randrange(0, 20), la]
         opb = [0, 0, 0] if lb == 0 else [rng.randrange(-9, 10), None if lb == 1 else rng.randrange(0, 20), lb]
-        yield {"part": "formula", "args": opa + opb}
+        yield {"part": "formula", "args": opa + opb, "iseed": rng.randrange(2 ** 31)}
     # part B
     pairs = [(ns, nc) for ns in range(1, 10) for nc in range(0, 11)]
     if not thorough:
@@ -831,7 +962,7 @@ def gen_cases(ctx, thorough):
     yield {**gen_from_samples_case(rng, 0, True), "obs": []}       # an empty System on an empty batch: {}
     yield {**gen_from_samples_case(rng, 3, True), "obs": []}
     # ObservableBase.sample
-    for _ in range(60 if thorough else 14):
+    for _ in range(90 if thorough else 30):
         yield gen_sample_case(rng)
     # malformed stream: nothing requested / no chains
     yield gen_stats_case(rng, 0, 0, False)
